@@ -68,6 +68,12 @@ class ExprMixin:
     # ---- names -----------------------------------------------------------------------------------
     def resolve_global(self, name: str, spec=False, module=None):
         module = module or self.cur_module
+        if name in self.reg.globals:
+            if name not in self.global_vals:
+                st0 = self.entry_state if self.entry_state is not None else self._boot_state
+                self.global_vals[name] = self.fresh_value(st0, self.reg.globals[name], "glob_" + name)
+                self.global_facts += st0.pc[-4:] if False else []
+            return self.global_vals[name]
         if module:
             r = self.prog.resolve_name(module, name)
             if r is not None:
@@ -136,6 +142,8 @@ class ExprMixin:
                 r = base.obj.lookup(e.attr)
                 if r and r[0] == "const":
                     return self.eval_const_expr(r[1], r[2].module)
+        if isinstance(e, ast.Dict):
+            return VPy("constdict", e)
         raise Unsupported(f"constant expression {ast.unparse(e)[:60]}")
 
     # ---- main dispatcher ------------------------------------------------------------------------
@@ -189,6 +197,12 @@ class ExprMixin:
                 st, base,
                 lambda s: self.raise_(s, "AttributeError", f"None.{attr} at {where}"),
                 lambda s, inner: self.get_attr(s, inner, attr, k, node))
+        if isinstance(base, VRef) and attr == "__class__":
+            ci = self.try_cls(base.cls)
+            tag = "class"
+            if ci is not None and any(c.name == "Message" for c in ci.mro()):
+                tag = "msgclass"
+            return k(st, VAny(self.type_of(st, base.t), tag))
         if isinstance(base, VRef):
             d = self.field_decl(base.cls, attr)
             if d is not None and not d[2]:
@@ -234,6 +248,8 @@ class ExprMixin:
                 return k(st, VPy("ext", f"{base.obj}.{attr}"))
             if base.what == "super":
                 return k(st, VPy("superbound", attr, base.obj))
+            if base.what in ("constdict", "litdict"):
+                return k(st, VPy("bound_builtin", attr, base))
         if isinstance(base, (VBytes, VStr, VList, VDict, VDeque, VSet, VSeq, VInt, VFloat)):
             pytype = {VBytes: bytes, VStr: str, VList: list, VDict: dict, VInt: int, VFloat: float}.get(type(base))
             if pytype is not None and not hasattr(pytype, attr):
@@ -243,6 +259,10 @@ class ExprMixin:
             if attr == "args":
                 return k(st, VPy("excargs", base))
             raise Unsupported(f"exception attribute {attr}")
+        if isinstance(base, VAny):
+            hk = self.reg.specfns.get("attr_opaque")
+            if hk is not None:
+                return hk(self, st, base, attr, k, where)
         if isinstance(base, VTuple):
             raise Unsupported(f"attribute {attr} of tuple ({where})")
         raise Unsupported(f"attribute {attr} of {base!r} ({where})")
@@ -289,7 +309,7 @@ class ExprMixin:
                         outs += step(st3.assume(t), idx + 1)
                 else:
                     if t.s != "false":
-                        outs += k(st3.assume(t), v)
+                        outs += k(st3.assume(t), v.inner if isinstance(v, VOpt) else v)
                     if Not(t).s != "false":
                         outs += step(st3.assume(Not(t)), idx + 1)
                 return outs
@@ -467,6 +487,8 @@ class ExprMixin:
             ek = self.hint_elem_kind(e, vs)
             items = seq_concat(*[seq_unit(self.comp1(v, ek)) for v in vs]) if vs else seq_empty(f"(Seq {elem_sort(ek)})")
             s3, lst = self.new_list(s2, ek, items)
+            lst.static_items = list(vs)
+            lst.static_heap = s3.heap[self._seq_key(ek)[0]]
             return k(s3, lst)
         return self.ev_list(st, e.elts, got)
 
@@ -485,30 +507,38 @@ class ExprMixin:
 
     def ev_Dict(self, st, e, k):
         if e.keys:
-            raise Unsupported("non-empty dict display")
-        hint = self.kind_hints.get((self.cur_func_name, e.lineno))
+            if all(isinstance(x, ast.Constant) and isinstance(x.value, str) for x in e.keys):
+                keys = [x.value for x in e.keys]
+                return self.ev_list(st, e.values, lambda s2, vs: k(s2, VPy("litdict", list(zip(keys, vs)))))
+            raise Unsupported("dict display with computed keys")
+        hint = self.kind_hints.get((self.cur_func_name, e.lineno)) or self.kind_hints.get((self.cur_func_name, "{}"))
         if not hint:
-            raise Unsupported(f"dict display at line {e.lineno} needs a kind hint")
+            raise Unsupported(f"dict display at line {e.lineno} of {self.cur_func_name} needs a kind hint")
         kd = parse_kind(hint)
         s2, d = self.new_dict(st, kd.k, kd.v)
         return k(s2, d)
 
     def ev_JoinedStr(self, st, e, k):
-        """f-strings: only as an injective tuple constructor of their pieces (T-fmt)."""
+        """f-strings: an injective tuple constructor of their pieces (T-fmt) when plain; an opaque
+        string when format specs / conversions are used (the pieces are still evaluated)."""
         parts = []
         exprs = []
+        opaque = False
         for v in e.values:
             if isinstance(v, ast.Constant):
                 parts.append(("lit", v.value))
             else:
                 if v.format_spec is not None or v.conversion not in (-1,):
-                    raise Unsupported("f-string with format spec as a value")
+                    opaque = True
                 parts.append(("expr", len(exprs)))
                 exprs.append(v.value)
         fn = self.reg.specfns.get("fstring")
-        if fn is None:
-            raise Unsupported("f-string value")
-        return self.ev_list(st, exprs, lambda s2, vs: k(s2, fn(self, s2, parts, vs)))
+
+        def done(s2, vs):
+            if opaque or fn is None:
+                return k(s2, VStr(self.arbitrary(STR, "fstr")))
+            return k(s2, fn(self, s2, parts, vs))
+        return self.ev_list(st, exprs, done)
 
     def ev_NamedExpr(self, st, e, k):
         def got(s2, v):
